@@ -542,7 +542,8 @@ func (e *SpecEnv) evalQuant(n *SQuant) Value {
 		nb[k] = v
 	}
 	e.bound = nb
-	defer func() { e.bound = saved }()
+	u.ctx.inQuant++
+	defer func() { e.bound = saved; u.ctx.inQuant-- }()
 	var decls []string
 	var guard Term = TTrue
 	if n.In != nil {
@@ -698,6 +699,23 @@ func (e *SpecEnv) evalCall(n *SCall) Value {
 			e.fail("cannot unbox %s", tn.Val)
 		}
 		return Sc{app("ipay"+k, scalarSort(t), s.T), t}
+	case "pinf", "ninf", "nan":
+		if curFloatSort != SF {
+			e.fail("%s() needs an 'ieee' contract", n.Fun)
+		}
+		return Sc{Term{n.Fun, SF}, types.Typ[types.Float64]}
+	case "isfinite", "isnan", "isinf":
+		s := e.scalar(n.Args[0])
+		if s.T.Sort != SF {
+			return Sc{map[string]Term{"isfinite": TTrue, "isnan": TFalse, "isinf": TFalse}[n.Fun], tb}
+		}
+		return Sc{app(map[string]string{"isfinite": "f_isfin", "isnan": "f_isnan", "isinf": "f_isinf"}[n.Fun], SBool, s.T), tb}
+	case "fval":
+		s := e.scalar(n.Args[0])
+		if s.T.Sort != SF {
+			return s
+		}
+		return Sc{app("fval", SReal, s.T), types.Typ[types.Float64]}
 	case "nonnil":
 		var cs []Term
 		for _, a := range n.Args {
@@ -774,7 +792,7 @@ func (e *SpecEnv) applyDefine(d *Define, home *PkgInfo, n *SCall) Value {
 					}
 				}
 			}
-			if p.Type == "real" {
+			if p.Type == "real" && sc.T.Sort == SInt {
 				v = Sc{ToReal(sc.T), types.Typ[types.Float64]}
 			}
 		}
